@@ -1,1 +1,307 @@
-(* placeholder *)
+(** C17 — each index container behaves as a sorted multimap.
+
+    "Each index structure behaves like a map from key to row ids: after any
+    sequence of entry insertions, deletions and updates a lookup returns exactly
+    the row ids currently stored under the key, and (for the ordered kinds) a
+    scan returns the current entries within the bounds in key order, each once."
+
+    Model: Model/IndexWrap.v.  [omap] is the specification of the ordered
+    unique-key container (skip list / B-link tree); the wrapper stores every
+    (key, rid) pair under ONE composite key [enc key ++ suffix rid]; [mmap] is
+    the abstract multimap (duplicate-free unordered list of pairs).
+    Statements are quantified over ALL operation sequences; hypotheses: integer
+    keys in the int32 range, float keys non-NaN, string keys NUL-free, row ids
+    [rid_ok] (0 <= page < 2^31, slot < 2^32).  Proofs: Proofs/IndexWrapProofs.v. *)
+From Coq Require Import List NArith ZArith Sorted.
+From SDB Require Import Base.Bytes Params Model.Codec Model.IndexWrap
+  Proofs.BytesProofs Proofs.CodecProofs Proofs.IndexWrapProofs.
+Import ListNotations.
+Open Scope N_scope.
+
+(** * Statement shapes, shared by the three key types
+
+    [kok] = validity of keys, [kcmp] = value order, [enck] / [deck] = composite
+    key encoder / decoder.  [op_okp K kok o]: the keys of [o] satisfy [kok] and
+    its row ids [rid_ok]. *)
+
+(** The wrapper refines the multimap: after any operation sequence the decoded
+    container holds exactly the pairs of the multimap, each once, and ScanKey
+    returns exactly the row ids stored under the key, each once, in row-id
+    suffix order. *)
+Definition refines_multimap_stmt (K : Type) (kok : K -> Prop) (kcmp : K -> K -> comparison)
+    (enck : K -> Z -> N -> list N) (deck : list N -> K) : Prop :=
+  forall ops, Forall (op_okp K kok) ops ->
+    let m := ix_run K enck ops in
+    let s := mm_run K kcmp ops in
+    (forall p, In p (ix_abs K deck m) <-> In p s) /\
+    NoDup (ix_abs K deck m) /\ NoDup s /\
+    forall k, kok k ->
+      (forall r, In r (ix_scan_key K enck k m) <-> In (k, r) s) /\
+      (forall r, In r (ix_scan_key K enck k m) <-> In r (mm_lookup K kcmp k s)) /\
+      NoDup (ix_scan_key K enck k m) /\
+      ix_scan_key K enck k m = mm_lookup_sorted K kcmp k s.
+
+(** Every single wrapper operation commutes with the multimap operation through
+    the abstraction function (equality of duplicate-free sets of pairs). *)
+Definition ops_commute_stmt (K : Type) (kok : K -> Prop) (kcmp : K -> K -> comparison)
+    (enck : K -> Z -> N -> list N) (deck : list N -> K) : Prop :=
+  forall ops o, Forall (op_okp K kok) ops -> op_okp K kok o ->
+    let m := ix_run K enck ops in
+    (forall p, In p (ix_abs K deck (ix_apply K enck m o)) <->
+               In p (mm_apply K kcmp (ix_abs K deck m) o)) /\
+    NoDup (ix_abs K deck (ix_apply K enck m o)) /\
+    NoDup (mm_apply K kcmp (ix_abs K deck m) o).
+
+(** A range scan returns exactly the stored pairs with lo <= key <= hi in the
+    value order, strictly sorted by (key, then row-id suffix), each once; it is
+    the list the multimap specification computes. *)
+Definition range_stmt (K : Type) (kok : K -> Prop) (kcmp : K -> K -> comparison)
+    (enck : K -> Z -> N -> list N) (deck : list N -> K) : Prop :=
+  forall ops lo hi, Forall (op_okp K kok) ops -> bound_ok K kok lo -> bound_ok K kok hi ->
+    let m := ix_run K enck ops in
+    let s := mm_run K kcmp ops in
+    ix_range K enck deck lo hi m = mm_range K kcmp lo hi s /\
+    StronglySorted (pair_lt K kcmp) (ix_range K enck deck lo hi m) /\
+    NoDup (ix_range K enck deck lo hi m) /\
+    (forall k r, In (k, r) (ix_range K enck deck lo hi m) <->
+       In (k, r) s /\
+       (match lo with None => True | Some l => kcmp l k <> Gt end) /\
+       (match hi with None => True | Some h => kcmp k h <> Gt end)).
+
+(** UpdateEntry is delete-then-insert, on the container and on the multimap. *)
+Definition update_stmt (K : Type) (kok : K -> Prop) (kcmp : K -> K -> comparison)
+    (enck : K -> Z -> N -> list N) (deck : list N -> K) : Prop :=
+  forall ops k r k' r', Forall (op_okp K kok) ops -> pok K kok (k, r) -> pok K kok (k', r') ->
+    let m := ix_run K enck ops in
+    let s := mm_run K kcmp ops in
+    ix_update K enck k r k' r' m = ix_insert K enck k' r' (ix_delete K enck k r m) /\
+    refines K kok enck deck (ix_update K enck k r k' r' m)
+            (mm_insert K kcmp k' r' (mm_delete K kcmp k r s)).
+
+(** * The container invariant: strictly sorted, hence no duplicate composite
+    key — for every key type, every encoder and every operation sequence (no
+    hypothesis on the keys is needed). *)
+Theorem omap_sorted_invariant : forall (K : Type) (enck : K -> Z -> N -> list N) (ops : list (ix_op K)),
+  let m := ix_run K enck ops in
+  om_sorted m /\ NoDup (map fst m) /\ om_sortedb m = true.
+Proof.
+  intros K enck ops m. pose proof (ix_run_sorted K enck ops) as H. fold m in H.
+  split; [exact H|]. split; [now apply om_sorted_nodup_keys | now apply om_sortedb_complete].
+Qed.
+Print Assumptions omap_sorted_invariant.
+
+(** * Integer keys *)
+
+Theorem int_wrapper_refines_multimap :
+  refines_multimap_stmt Z int_ok Z.compare enc_int_key dec_int_key.
+Proof.
+  exact (wrapper_refines_generic Z int_ok Z.compare enc_int_key dec_int_key
+           int_enck_order int_deck_enck int_decr_enck int_bracket).
+Qed.
+Print Assumptions int_wrapper_refines_multimap.
+
+Theorem int_ops_commute : ops_commute_stmt Z int_ok Z.compare enc_int_key dec_int_key.
+Proof.
+  exact (ops_commute_generic Z int_ok Z.compare enc_int_key dec_int_key
+           int_enck_order int_deck_enck int_decr_enck).
+Qed.
+Print Assumptions int_ops_commute.
+
+Theorem int_range_scan_in_key_order : range_stmt Z int_ok Z.compare enc_int_key dec_int_key.
+Proof.
+  exact (range_generic Z int_ok Z.compare enc_int_key dec_int_key
+           int_enck_order int_deck_enck int_decr_enck).
+Qed.
+Print Assumptions int_range_scan_in_key_order.
+
+Theorem int_update_is_delete_insert : update_stmt Z int_ok Z.compare enc_int_key dec_int_key.
+Proof.
+  exact (update_generic Z int_ok Z.compare enc_int_key dec_int_key
+           int_enck_order int_deck_enck int_decr_enck).
+Qed.
+Print Assumptions int_update_is_delete_insert.
+
+(** * String keys *)
+
+Theorem str_wrapper_refines_multimap :
+  refines_multimap_stmt (list N) nul_free lex_cmp enc_str_key dec_str_key.
+Proof.
+  exact (wrapper_refines_generic (list N) nul_free lex_cmp enc_str_key dec_str_key
+           str_enck_order str_deck_enck str_decr_enck str_bracket).
+Qed.
+Print Assumptions str_wrapper_refines_multimap.
+
+Theorem str_ops_commute : ops_commute_stmt (list N) nul_free lex_cmp enc_str_key dec_str_key.
+Proof.
+  exact (ops_commute_generic (list N) nul_free lex_cmp enc_str_key dec_str_key
+           str_enck_order str_deck_enck str_decr_enck).
+Qed.
+Print Assumptions str_ops_commute.
+
+Theorem str_range_scan_in_key_order :
+  range_stmt (list N) nul_free lex_cmp enc_str_key dec_str_key.
+Proof.
+  exact (range_generic (list N) nul_free lex_cmp enc_str_key dec_str_key
+           str_enck_order str_deck_enck str_decr_enck).
+Qed.
+Print Assumptions str_range_scan_in_key_order.
+
+Theorem str_update_is_delete_insert :
+  update_stmt (list N) nul_free lex_cmp enc_str_key dec_str_key.
+Proof.
+  exact (update_generic (list N) nul_free lex_cmp enc_str_key dec_str_key
+           str_enck_order str_deck_enck str_decr_enck).
+Qed.
+Print Assumptions str_update_is_delete_insert.
+
+(** * Float keys
+
+    [f_cmp] identifies -0.0 and +0.0 and both encode to the same bytes; the
+    decoder returns +0.0.  On canonical patterns ([f_okc]: non-NaN and not the
+    -0.0 pattern) the four generic statements hold verbatim; for arbitrary
+    non-NaN keys the multimap is fed the canonicalised operations
+    ([f_canon_op] maps -0.0 to +0.0 and changes nothing else). *)
+
+Theorem float_canonical_wrapper_refines_multimap :
+  refines_multimap_stmt N f_okc f_cmp enc_f32_key dec_f32_key.
+Proof.
+  exact (wrapper_refines_generic N f_okc f_cmp enc_f32_key dec_f32_key
+           f32_enck_order f32_deck_enck f32_decr_enck f32_bracket).
+Qed.
+Print Assumptions float_canonical_wrapper_refines_multimap.
+
+Theorem float_canonical_ops_commute : ops_commute_stmt N f_okc f_cmp enc_f32_key dec_f32_key.
+Proof.
+  exact (ops_commute_generic N f_okc f_cmp enc_f32_key dec_f32_key
+           f32_enck_order f32_deck_enck f32_decr_enck).
+Qed.
+Print Assumptions float_canonical_ops_commute.
+
+Theorem float_canonical_range_scan_in_key_order :
+  range_stmt N f_okc f_cmp enc_f32_key dec_f32_key.
+Proof.
+  exact (range_generic N f_okc f_cmp enc_f32_key dec_f32_key
+           f32_enck_order f32_deck_enck f32_decr_enck).
+Qed.
+Print Assumptions float_canonical_range_scan_in_key_order.
+
+Theorem float_update_is_delete_insert : update_stmt N f_okc f_cmp enc_f32_key dec_f32_key.
+Proof.
+  exact (update_generic N f_okc f_cmp enc_f32_key dec_f32_key
+           f32_enck_order f32_deck_enck f32_decr_enck).
+Qed.
+Print Assumptions float_update_is_delete_insert.
+
+(** The wrapper cannot tell the two zeros apart. *)
+Theorem float_zero_ops_coincide : forall ops, ixf_run (map f_canon_op ops) = ixf_run ops.
+Proof. exact ixf_run_canon. Qed.
+Print Assumptions float_zero_ops_coincide.
+
+Theorem float_wrapper_refines_multimap : forall ops, Forall (op_okp N f_ok) ops ->
+  let m := ixf_run ops in
+  let s := mmf_run (map f_canon_op ops) in
+  (forall p, In p (ixf_abs m) <-> In p s) /\
+  NoDup (ixf_abs m) /\ NoDup s /\
+  forall k, f_ok k ->
+    (forall r, In r (ixf_scan_key k m) <-> In (f_canon k, r) s) /\
+    (forall r, In r (ixf_scan_key k m) <-> In r (mmf_lookup k s)) /\
+    NoDup (ixf_scan_key k m) /\
+    ixf_scan_key k m = mmf_lookup_sorted k s.
+Proof. exact f32_wrapper_refines. Qed.
+Print Assumptions float_wrapper_refines_multimap.
+
+Theorem float_range_scan_in_key_order : forall ops lo hi, Forall (op_okp N f_ok) ops ->
+  bound_ok N f_ok lo -> bound_ok N f_ok hi ->
+  let m := ixf_run ops in
+  let s := mmf_run (map f_canon_op ops) in
+  ixf_range lo hi m = mmf_range lo hi s /\
+  StronglySorted (pair_lt N f_cmp) (ixf_range lo hi m) /\
+  NoDup (ixf_range lo hi m) /\
+  (forall k r, In (k, r) (ixf_range lo hi m) <->
+     In (k, r) s /\
+     (match lo with None => True | Some l => f_cmp l k <> Gt end) /\
+     (match hi with None => True | Some h => f_cmp k h <> Gt end)).
+Proof. exact f32_range. Qed.
+Print Assumptions float_range_scan_in_key_order.
+
+(** * Non-vacuity: concrete operation sequences meeting the hypotheses, with
+    duplicate keys, adjacent values, negative numbers, a repeated pair, a
+    delete, an update and a row id whose page needs two suffix bytes. *)
+
+Definition ex_int_ops : list (ix_op Z) :=
+  [ IxIns (-5)%Z (1%Z, 0); IxIns 7%Z (2%Z, 3); IxIns 7%Z (1%Z, 9); IxIns 8%Z (0%Z, 0);
+    IxIns (-6)%Z (3%Z, 1); IxIns 7%Z (2%Z, 3); IxIns 7%Z (256%Z, 0);
+    IxIns (-2147483648)%Z (5%Z, 5); IxIns 2147483647%Z (6%Z, 6);
+    IxDel 8%Z (0%Z, 0); IxDel 9%Z (0%Z, 0);
+    IxUpd (-5)%Z (1%Z, 0) 6%Z (1%Z, 0) ].
+
+Example c17_int_ops_ok : Forall (op_okp Z int_ok) ex_int_ops.
+Proof.
+  unfold ex_int_ops, op_okp, pok, int_ok, rid_okp, rid_ok, two32; cbn [fst snd].
+  repeat constructor; try reflexivity; discriminate.
+Qed.
+
+(** ScanKey 7 returns the three row ids stored under 7, each once, in suffix
+    order: the suffix is little-endian, so page 256 (bytes 00 01 ..) sorts
+    before page 1 (bytes 01 00 ..). *)
+Example c17_int_scan :
+  ixi_scan_key 7%Z (ixi_run ex_int_ops) = [(256%Z, 0); (1%Z, 9); (2%Z, 3)] /\
+  mmi_lookup_sorted 7%Z (mmi_run ex_int_ops) = [(256%Z, 0); (1%Z, 9); (2%Z, 3)] /\
+  ixi_scan_key 8%Z (ixi_run ex_int_ops) = [] /\
+  ixi_scan_key (-5)%Z (ixi_run ex_int_ops) = [] /\
+  ixi_scan_key 6%Z (ixi_run ex_int_ops) = [(1%Z, 0)].
+Proof. vm_compute. repeat split. Qed.
+
+Example c17_int_range :
+  ixi_range (Some (-6)%Z) (Some 7%Z) (ixi_run ex_int_ops) =
+    [ ((-6)%Z, (3%Z, 1)); (6%Z, (1%Z, 0)); (7%Z, (256%Z, 0)); (7%Z, (1%Z, 9)); (7%Z, (2%Z, 3)) ] /\
+  mmi_range (Some (-6)%Z) (Some 7%Z) (mmi_run ex_int_ops) =
+    [ ((-6)%Z, (3%Z, 1)); (6%Z, (1%Z, 0)); (7%Z, (256%Z, 0)); (7%Z, (1%Z, 9)); (7%Z, (2%Z, 3)) ] /\
+  ixi_range None (Some (-6)%Z) (ixi_run ex_int_ops) =
+    [ ((-2147483648)%Z, (5%Z, 5)); ((-6)%Z, (3%Z, 1)) ] /\
+  ixi_range (Some 8%Z) None (ixi_run ex_int_ops) = [ (2147483647%Z, (6%Z, 6)) ] /\
+  length (ixi_range None None (ixi_run ex_int_ops)) = 7%nat /\
+  om_sortedb (ixi_run ex_int_ops) = true.
+Proof. vm_compute. repeat split. Qed.
+
+(** Floats: -1.5 (0xBFC00000), -0.0 (0x80000000), +0.0, 1.0 (0x3F800000), +Inf. *)
+Definition ex_f32_ops : list (ix_op N) :=
+  [ IxIns 1065353216 (1%Z, 1); IxIns 2147483648 (2%Z, 2); IxIns 0 (3%Z, 3);
+    IxIns 3217031168 (4%Z, 4); IxIns 2139095040 (5%Z, 5); IxIns 0 (2%Z, 2);
+    IxDel 2147483648 (3%Z, 3) ].
+
+Example c17_f32_ops_ok : Forall (op_okp N f_ok) ex_f32_ops.
+Proof.
+  unfold ex_f32_ops, op_okp, pok, f_ok, rid_okp, rid_ok, two32; cbn [fst snd].
+  repeat constructor; try reflexivity; discriminate.
+Qed.
+
+Example c17_f32_scan_range :
+  ixf_scan_key 2147483648 (ixf_run ex_f32_ops) = [(2%Z, 2)] /\
+  ixf_scan_key 0 (ixf_run ex_f32_ops) = [(2%Z, 2)] /\
+  ixf_range (Some 3217031168) (Some 1065353216) (ixf_run ex_f32_ops) =
+    [ (3217031168, (4%Z, 4)); (0, (2%Z, 2)); (1065353216, (1%Z, 1)) ] /\
+  mmf_range (Some 3217031168) (Some 1065353216) (mmf_run (map f_canon_op ex_f32_ops)) =
+    [ (3217031168, (4%Z, 4)); (0, (2%Z, 2)); (1065353216, (1%Z, 1)) ].
+Proof. vm_compute. repeat split. Qed.
+
+(** Strings: "a", "ab", "b" and the empty string. *)
+Definition ex_str_ops : list (ix_op (list N)) :=
+  [ IxIns [97; 98] (1%Z, 0); IxIns [97] (2%Z, 0); IxIns [98] (3%Z, 0); IxIns [97] (1%Z, 7);
+    IxIns [] (4%Z, 4); IxDel [98] (3%Z, 0) ].
+
+Example c17_str_ops_ok : Forall (op_okp (list N) nul_free) ex_str_ops.
+Proof.
+  unfold ex_str_ops, op_okp, pok, nul_free, rid_okp, rid_ok, two32; cbn [fst snd].
+  repeat constructor; try reflexivity; discriminate.
+Qed.
+
+Example c17_str_scan_range :
+  ixs_scan_key [97] (ixs_run ex_str_ops) = [(1%Z, 7); (2%Z, 0)] /\
+  ixs_range (Some [97]) (Some [98]) (ixs_run ex_str_ops) =
+    [ ([97], (1%Z, 7)); ([97], (2%Z, 0)); ([97; 98], (1%Z, 0)) ] /\
+  mms_range (Some [97]) (Some [98]) (mms_run ex_str_ops) =
+    [ ([97], (1%Z, 7)); ([97], (2%Z, 0)); ([97; 98], (1%Z, 0)) ] /\
+  ixs_range None None (ixs_run ex_str_ops) =
+    [ ([], (4%Z, 4)); ([97], (1%Z, 7)); ([97], (2%Z, 0)); ([97; 98], (1%Z, 0)) ].
+Proof. vm_compute. repeat split. Qed.
